@@ -38,7 +38,7 @@ PROPS["C06"] = dict(
     rule="case = (stream bytes, ISN, multiset of segments (off,len), arrival order); distinct = distinct (ISN, ordered segment list); non-trivial = every history has >=1 segment "
          "and is checked after each packet; exhaustive part: |s|=6, all sets of <=4 distinct segments x all orders x 6 ISNs",
     floors=dict(any={"distinct": 10000, "exhaustive_sets": 7546, "br:history-wraps-2^32": 500, "br:slice-on-entry": 100, "br:slice-buffered": 100,
-                     "br:replace-longer": 100, "br:keep-longer-or-equal": 100, "br:erase-seen": 100, "histories:Flow": 1000, "histories:TCPStreamFollower": 1000}),
+                     "br:replace-longer": 100, "br:keep-longer-or-equal": 100, "br:erase-seen": 100, "histories:Flow": 1000, "histories:TCPStreamFollower": 1000, "skip:histories:DataTracker": 3000, "skip:histories:Flow": 1000, "skip:stream-wraps-2^32": 2000, "skip:chunk-in-hole-dropped": 1000, "skip:chunks-beyond-target-kept": 3000}),
     assumptions=["all segments carry bytes of one underlying stream and lie within half the sequence space of the current position",
                  "legacy follower exposes delivered data only through its data callback; its state is checked whenever the callback fires and whenever the model says the prefix grew"],
 )
